@@ -1,6 +1,7 @@
 import JoblibModel.ParallelProto
 import JoblibModel.ParallelSeq
 import JoblibModel.ParallelStartup
+import JoblibModel.ParallelReconf
 import JoblibModel.IOUtil
 import JoblibModel.AutoBatch
 /-! Line protocol for M1 (shared by the C01/C04/C09/C16 drivers): a scenario of harness/ctl.py as a flat list of
@@ -45,7 +46,23 @@ structure Tail where
   guard : Bool := true
   enter : Fault := {}
   faults : List Fault := []
+  /-- per-call configurations (`JoblibModel/ParallelReconf.lean`): a second optional section after the faults, one
+  `nj auto nbs bs… pdMode pd timeout` per call -/
+  cfgs : Option (List Cfg) := none
 deriving Repr, Inhabited
+
+def parseCfgs (c0 : Cfg) : Nat → List Int → Option (List Cfg × List Int)
+  | 0, l => some ([], l)
+  | k + 1, nj :: auto :: nbs :: l => do
+    if nj < 2 || nbs < 1 || auto < 0 || auto > 1 then none
+    let (bs, l) ← takeNats nbs.toNat l
+    match l with
+    | pdMode :: pd :: to :: l =>
+      if pdMode < 0 || pdMode > 2 || pd < 0 || to < -1 then none
+      let (rest, l) ← parseCfgs c0 k l
+      pure ({ c0 with nj := nj.toNat, bsAuto := auto != 0, bs := bs, pdMode := pdMode.toNat, pd := pd.toNat, timeout := to } :: rest, l)
+    | _ => none
+  | _ + 1, _ => none
 
 def parseFaults : Nat → List Int → Option (List Fault × List Int)
   | 0, l => some ([], l)
@@ -57,15 +74,20 @@ def parseFaults : Nat → List Int → Option (List Fault × List Int)
     pure (f :: rest, l)
   | _ + 1, _ => none
 
-def parseTail (ncalls : Nat) (managed0 : Bool) (calls : List CallSpec) : List Int → Option Tail
+def parseTail (ncalls : Nat) (managed0 : Bool) (calls : List CallSpec) (c0 : Cfg) : List Int → Option Tail
   | [] => some {}
   | sg :: ek :: ecls :: l => do
     if sg < 0 || sg > 1 || ecls < 0 || ecls > 1 then none
     -- the enter fault is `configure` raising in `__enter__`: only inside a with block, and then there is no block to leave (op 6)
     if !(ek = 0 || (ek = 2 && managed0 && calls.all (fun cs => !cs.cons.contains 6))) then none
     let (fs, l) ← parseFaults ncalls l
-    if l ≠ [] then none
-    pure ⟨sg != 0, ⟨ek.toNat, if ek = 0 then 0 else ecls.toNat⟩, fs⟩
+    if l = [] then pure ⟨sg != 0, ⟨ek.toNat, if ek = 0 then 0 else ecls.toNat⟩, fs, none⟩
+    else
+      -- per-call configurations: parallel path only, at least one call
+      if c0.nj < 2 || ncalls = 0 then none
+      let (cfgs, l) ← parseCfgs c0 ncalls l
+      if l ≠ [] then none
+      pure ⟨sg != 0, ⟨ek.toNat, if ek = 0 then 0 else ecls.toNat⟩, fs, some cfgs⟩
   | _ => none
 
 def parseScenario (toks : List Int) : Option (Cfg × List CallSpec × List (List Nat) × Option Tail) :=
@@ -81,8 +103,9 @@ def parseScenario (toks : List Int) : Option (Cfg × List CallSpec × List (List
       | ns :: l =>
         if ns < 0 then none
         let (sched, l) ← parseSched ns.toNat l
-        let tail ← if l = [] then pure none else (parseTail nc.toNat (mg != 0) calls l).map some
-        pure (⟨nj.toNat, auto != 0, bs, pdMode.toNat, pd.toNat, ra.toNat, to, mg != 0, ad != 0⟩, calls, sched, tail)
+        let c0 : Cfg := ⟨nj.toNat, auto != 0, bs, pdMode.toNat, pd.toNat, ra.toNat, to, mg != 0, ad != 0⟩
+        let tail ← if l = [] then pure none else (parseTail nc.toNat (mg != 0) calls c0 l).map some
+        pure (c0, calls, sched, tail)
       | [] => none
     | _ => none
   | _ => none
@@ -125,6 +148,9 @@ def handle (line : String) : String :=
       -- `n_jobs == 1` after configuration: the sequential path
       if c.nj == 1 then " | ".intercalate (ParallelSeq.runScenarioSeq c calls sched)
       else " | ".intercalate (runScenario c calls sched)
+    | some (c, calls, sched, some { guard, enter, faults, cfgs := some cfgs }) =>
+      -- a configuration per call (JoblibModel/ParallelReconf.lean)
+      " | ".intercalate (ParallelReconf.runScenarioV c guard enter (cfgs.zip (calls.zip faults)) sched)
     | some (c, calls, sched, some t) =>
       -- with start-up faults / the `startGuard` switch (JoblibModel/ParallelStartup.lean)
       if c.nj == 1 then " | ".intercalate (ParallelStartup.runScenarioSeqF c t.guard t.enter (calls.zip t.faults) sched)
